@@ -2,17 +2,55 @@ package cardinality
 
 import (
 	"sync"
+	"sync/atomic"
 )
+
+// lockOrder hands every thread-safe duplex a unique rank. Operations that need the locks of two wrappers take them
+// in rank order.
+var lockOrder atomic.Uint64
 
 type threadSafeDuplex[T uint32 | uint64] struct {
 	provider Duplex[T]
 	lock     *sync.Mutex
+	rank     uint64
 }
 
 func ThreadSafeDuplex[T uint32 | uint64](provider Duplex[T]) Duplex[T] {
 	return threadSafeDuplex[T]{
 		provider: provider,
 		lock:     &sync.Mutex{},
+		rank:     lockOrder.Add(1),
+	}
+}
+
+// lockWith locks this provider for an in-place binary operation. When the operand is a thread-safe wrapper as well,
+// its lock is taken too - both in rank order so that a.Or(b) racing b.Or(a) cannot deadlock - and the operand's inner
+// provider is returned so that the operation sees one consistent state of it.
+func (s threadSafeDuplex[T]) lockWith(other Provider[T]) (Provider[T], func()) {
+	otherSafe, isSafe := other.(threadSafeDuplex[T])
+
+	if !isSafe {
+		s.lock.Lock()
+		return other, s.lock.Unlock
+	}
+
+	if otherSafe.lock == s.lock {
+		s.lock.Lock()
+		return otherSafe.provider, s.lock.Unlock
+	}
+
+	first, second := s, otherSafe
+
+	if first.rank > second.rank {
+		first, second = second, first
+	}
+
+	first.lock.Lock()
+	second.lock.Lock()
+
+	return otherSafe.provider, func() {
+		second.lock.Unlock()
+		first.lock.Unlock()
 	}
 }
 
@@ -31,10 +69,10 @@ func (s threadSafeDuplex[T]) Add(values ...T) {
 }
 
 func (s threadSafeDuplex[T]) AndNot(other Provider[T]) {
-	s.lock.Lock()
-	defer s.lock.Unlock()
+	operand, unlock := s.lockWith(other)
+	defer unlock()
 
-	s.provider.AndNot(other)
+	s.provider.AndNot(operand)
 }
 
 func (s threadSafeDuplex[T]) Remove(value T) {
@@ -45,24 +83,24 @@ func (s threadSafeDuplex[T]) Remove(value T) {
 }
 
 func (s threadSafeDuplex[T]) Xor(other Provider[T]) {
-	s.lock.Lock()
-	defer s.lock.Unlock()
+	operand, unlock := s.lockWith(other)
+	defer unlock()
 
-	s.provider.Xor(other)
+	s.provider.Xor(operand)
 }
 
 func (s threadSafeDuplex[T]) And(other Provider[T]) {
-	s.lock.Lock()
-	defer s.lock.Unlock()
+	operand, unlock := s.lockWith(other)
+	defer unlock()
 
-	s.provider.And(other)
+	s.provider.And(operand)
 }
 
 func (s threadSafeDuplex[T]) Or(other Provider[T]) {
-	s.lock.Lock()
-	defer s.lock.Unlock()
+	operand, unlock := s.lockWith(other)
+	defer unlock()
 
-	s.provider.Or(other)
+	s.provider.Or(operand)
 }
 
 func (s threadSafeDuplex[T]) Cardinality() uint64 {
